@@ -1,18 +1,19 @@
 (** C18 — The archive writer honours the stream's starting position.
 
-    Proved: for every archive, API family, pre-existing stream image and starting position P, a
-    successful [to_writer] leaves the bytes before P untouched (zero-extended if the stream was shorter),
-    puts the 127-byte header at P, records every section offset in it relative to P (root at 127, the
-    sections consecutive), and leaves the stream at P + tile_data_offset + tile_data_length — the
-    archive's end.
-    Not yet a theorem (full statement): that the bytes from P on are byte-identical to the archive
-    written at position 0; this clause is decided by the correspondence run (model vs Rust image, position
-    and write/seek log at P in {0, 1, 10, 127, 128, 4096, random}, pre-filled and empty streams, with
-    and without leaf spill) and the direct oracle. *)
-Require Import PM.Base PM.Oracles PM.Params PM.Header PM.Stream PM.Archive PM.SpillProofs PM.WriterLogProofs.
+    Proved, for every archive, API family, pre-existing stream image and starting position P:
+    - [C18_bytes_from_start]: a successful [to_writer] leaves the stream at P + n and the n bytes from P on are the
+      first n bytes of the archive the same call writes into an empty stream at position 0 (which also succeeds),
+      n being the archive's length (header + root + metadata + leaves + tile data);
+    - [C18_start_position]: the bytes before P are untouched (zero-extended if the stream was shorter), the
+      127-byte header sits at P, every section offset in it is relative to P (root at 127, the sections
+      consecutive) and the stream is left at P + tile_data_offset + tile_data_length;
+    - [C18_all_writes_after_start]: every write of the call is at or after P.
+    By a two-run induction over the doubling loop and the writer ([leaf_loop_two], [write_directories_two]):
+    both runs take the same decisions because these depend on lengths only. *)
+Require Import PM.Base PM.Oracles PM.Params PM.Header PM.Stream PM.Archive PM.SpillProofs PM.WriterLogProofs PM.StartPosProofs PM.TileManager PM.Float.
 Open Scope N_scope.
 
-Theorem C18_start_position_partial : forall cx asy p st st', to_writer cx asy p st = Ok st' ->
+Theorem C18_start_position : forall cx asy p st st', to_writer cx asy p st = Ok st' ->
   let P := ws_pos st in
   before (ws_img st') P = before (ws_img st) P /\
   (exists hb h, length hb = 127%nat /\ section (ws_img st') P 127 = hb /\ encode_header h = Ok hb /\
@@ -20,6 +21,13 @@ Theorem C18_start_position_partial : forall cx asy p st st', to_writer cx asy p 
                 h_leaf_off h = h_meta_off h + h_meta_len h /\ h_data_off h = h_leaf_off h + h_leaf_len h /\
                 ws_pos st' = P + h_data_off h + h_data_len h).
 Proof. exact to_writer_start_position. Qed.
+
+(** the bytes from P on are the archive written at 0 *)
+Theorem C18_bytes_from_start : forall cx asy p st st', to_writer cx asy p st = Ok st' ->
+  let P := ws_pos st in
+  exists b n, to_bytes cx asy p = Ok b /\ ws_pos st' = P + n /\ n <= nlen b /\ 127 <= n /\
+    firstn (N.to_nat n) (skipn (N.to_nat P) (ws_img st')) = firstn (N.to_nat n) b.
+Proof. intros cx asy p st st' H. exact (to_writer_bytes_from_start cx asy p st st' H eq_refl). Qed.
 
 (** before the fix the header went to absolute offset 0; now every write of the call is at or after P *)
 Theorem C18_all_writes_after_start : forall cx asy p st st', to_writer cx asy p st = Ok st' ->
@@ -34,4 +42,12 @@ Example C18_example :
   | Ok st' => (firstn 3 (ws_img st'), ws_pos st' =? 3 + nlen (skipn 3 (ws_img st')), firstn 7 (skipn 3 (ws_img st')))
   | _ => ([], false, [])
   end = ([9; 9; 9], true, magic).
+Proof. vm_compute. reflexivity. Qed.
+
+Example C18_example_bytes :
+  let tm3 := fold_left (fun s '(i, d) => match add_tile ctx_id s i d with Ok s' => s' | _ => s end) [(5, [1;2]); (6, [1;2]); (9, [7])] (tm_empty None) in
+  let p := mkPM TPng CNone CGzip 0 3 1 (Float.of_Z 0) (Float.of_Z 0) (Float.of_Z 0) (Float.of_Z 0) (Float.of_Z 0) (Float.of_Z 0) [123; 125] tm3 in
+  (do st' <- to_writer ctx_id true p (ws_new [9; 9; 9; 9; 9; 9; 9] 4); do b <- to_bytes ctx_id false p;
+   Ok (firstn 4 (ws_img st'), N.eqb (ws_pos st') (4 + nlen b), forallb (fun '(x, y) => N.eqb x y) (combine (skipn 4 (ws_img st')) b), N.eqb (nlen (skipn 4 (ws_img st'))) (nlen b)))
+  = Ok ([9; 9; 9; 9], true, true, true).
 Proof. vm_compute. reflexivity. Qed.
